@@ -29,7 +29,8 @@ RULE = ("learn: every training arrangement of 3 of 4 (thorough also 4 of 5) dist
         "must equal the union of conqueror + ancestors for SOME choice of exhaustive minimisers "
         "(unique on tie-free data). prune: lattice sets x validation sets x n_iterations 0..2; each "
         "re-fit receives exactly the rows flagged after the previous pass, final nodes are a "
-        "sub-multiset of the original with labels intact. Non-trivial = the execution has >= 1 "
+        "sub-multiset of the original with labels intact (also 2-D lattice arrangements and twelve-sample "
+        "sets with few relevant rows). Non-trivial = the execution has >= 1 "
         "swap / the batch flags a proper subset / pruning discards >= 1 row")
 ASSUMPTIONS = [
     "feature values are unique tags (rows identifiable); n_train <= 3 (4), n_val <= 3, iterations <= 3",
